@@ -142,6 +142,22 @@ theorem registrations_newest_wins (base : List HRes) (regs : List HRes) :
       rw [show dispatch false (register base r) = _ from register_prepends base r]
       cases accepted r <;> rfl
 
+/-! ### the two-digit-year window of `_parse_date_rfc822` -/
+
+/-- a year written with three or more characters (`0050`, `1999`, `12345`) is taken verbatim, whatever its value -/
+theorem year_written_long_is_verbatim (w : Str) (y : Int) (h : 3 ≤ w.length) : windowYear w y = y := by
+  unfold windowYear; split
+  · omega
+  · rfl
+
+/-- a year written with one or two digits lands in 1990..2089, on the century that puts it there -/
+theorem year_written_short_is_windowed (w : Str) (y : Int) (h : w.length ≤ 2) (h0 : 0 ≤ y) (h1 : y ≤ 99) :
+    1990 ≤ windowYear w y ∧ windowYear w y ≤ 2089 ∧ (windowYear w y - y = 2000 ∨ windowYear w y - y = 1900) := by
+  unfold windowYear; simp only [h, ↓reduceIte]; split <;> omega
+
+/-- the window looks at the spelling only: the two spellings `50` and `0050` of the same number give different years -/
+example : windowYear "50".toList 50 = 2050 ∧ windowYear "0050".toList 50 = 50 := by decide
+
 /-- the empty string is answered `None` without consulting any handler -/
 theorem dispatch_empty (rs : List HRes) : dispatch true rs = none := rfl
 
